@@ -9,7 +9,7 @@ Separate Extraction
   MRecon.run_case Recon.run Recon.init
   Mgr.start_update Mgr.handle_segment Mgr.check_and_mark_done Mgr.try_recover Mgr.cancel_all_ext_pending
   Mgr.bl_boot_status Mgr.fallback_firmware Mgr.is_valid_firmware Mgr.mark Mgr.load_headers
-  Mgr.crash_mem Mgr.blank_dev Mgr.with_mem Mgr.arm_fail Mgr.clear_flags Mgr.poke Mgr.received Mgr.total Mgr.orig_check_crc
+  Mgr.crash_mem Mgr.blank_dev Mgr.with_mem Mgr.arm_fail Mgr.clear_flags Mgr.reset_rh Mgr.poke Mgr.received Mgr.total Mgr.orig_check_crc
   Updater.run_session Lfdbt.rows_for
   Adapt.data_store Adapt.data_get Adapt.parity_store Adapt.parity_get Adapt.matrix_set_row Adapt.matrix_row Adapt.matrix_num_rows
   Adapt.fresh_dev Adapt.w_erase.
